@@ -47,6 +47,7 @@ def run(ctx):
     rule_conversions(ctx, repo)
     rule_converters(ctx, repo)
     rule_call(ctx, repo)
+    rule_round_trip(ctx, repo)
     rule_ids(ctx, repo)
     rule_errors(ctx, repo)
     ctx.not_decided += ['exactness of float(amount)/COIN -> JSON number -> server (numerical)', 'HTTP transport behaviour']
@@ -152,6 +153,80 @@ def rule_conversions(ctx, repo):
             r.violated('%s:%s' % (name, inner), fi.site if fi else px.site, 'Proxy.%s no longer converts `%s` (%s) with %s: the value crosses the boundary raw or through another path' % (name, inner, kind_of(want), want))
     coin = repo.module_value(repo.get_module('bitcoin.core'), 'COIN')
     r.check(coin == 100000000, 'COIN', 'bitcoin/core/__init__.py:0', '1e8', 'COIN is %r' % (coin,))
+
+
+def rule_round_trip(ctx, repo):
+    """Every Proxy method that talks to the node in the confirmed tree still does: the same requests are sent, on every
+    path that returns, and what the method hands back is a value (the converted reply), not the None of a missing return."""
+    from ..delta import inventory
+    r = ctx.rule('C19.Q1', 'every proxy method sends its request on every returning path and hands the converted reply back', engine='DOM', floor=30)
+    inv = inventory()['modules'].get('bitcoin.rpc', {}).get('functions', {})
+    px = repo.get_class(RPC + 'Proxy')
+
+    def requests(node):
+        out = []
+        for c in ast.walk(node):
+            if isinstance(c, ast.Call) and norm(c.func) == 'self._call' and c.args and isinstance(c.args[0], ast.Constant):
+                out.append(c.args[0].value)
+        return sorted(out)
+
+    def exits_of(node):
+        def gen(stmt, facts):
+            if isinstance(stmt, (ast.If, ast.While)):
+                parts = [stmt.test]
+            elif isinstance(stmt, ast.For):
+                parts = [stmt.iter]
+            elif isinstance(stmt, ast.With):
+                parts = [i.context_expr for i in stmt.items]
+            elif isinstance(stmt, ast.Try):
+                parts = []
+            else:
+                parts = [stmt]
+            if any(isinstance(c, ast.Call) and norm(c.func) == 'self._call' for p_ in parts for c in ast.walk(p_)):
+                return facts | {'sent'}
+            return facts
+        mf = flow.run_must(node, gen=gen)
+        return mf.exits
+    for name, fi in sorted(px.methods.items()):
+        known = inv.get(fi.qualname)
+        if known is None or not known.get('source') or name.startswith('_'):
+            continue
+        try:
+            old = ast.parse(known['source']).body[0]
+        except SyntaxError:
+            continue
+        want = requests(old)
+        if not want:
+            continue
+        got = requests(fi.node)
+        key = 'sent:%s' % name
+        if set(got) == set(want):
+            r.ok(key, fi.site, 'requests %s' % sorted(set(want)))
+        elif set(got) < set(want):
+            missing = sorted(set(want) - set(got))
+            r.violated(key, fi.site, 'Proxy.%s no longer sends the request %s (the confirmed method sends %s): nothing reaches the node on that path, no reply is converted and no error reply can be raised'
+                       % (name, missing, want), sure=True)
+        else:
+            r.undecided(key, fi.site, 'Proxy.%s sends %s, the confirmed method %s' % (name, got, want))
+        # returning paths
+        old_exits = exits_of(old)
+        new_exits = exits_of(fi.node)
+        old_fall = [e for e in old_exits if e[0] == 'fallthrough']
+        old_bare = [e for e in old_exits if e[0] == 'return' and (e[1].value is None or (isinstance(e[1].value, ast.Constant) and e[1].value.value is None))]
+        new_fall = [e for e in new_exits if e[0] == 'fallthrough']
+        new_bare = [e for e in new_exits if e[0] == 'return' and (e[1].value is None or (isinstance(e[1].value, ast.Constant) and e[1].value.value is None))]
+        key = 'returns:%s' % name
+        if (new_fall and not old_fall) or (len(new_bare) > len(old_bare)):
+            r.violated(key, fi.site, 'Proxy.%s can now finish without a return value (the confirmed method always returns the converted reply): the caller receives None' % name, sure=True)
+        else:
+            def own_call(e):
+                return any(isinstance(c, ast.Call) and norm(c.func) == 'self._call' for c in ast.walk(e[1]))
+            unsent = [e for e in new_exits if e[0] == 'return' and 'sent' not in e[2] and not own_call(e)]
+            old_unsent = [e for e in old_exits if e[0] == 'return' and 'sent' not in e[2] and not own_call(e)]
+            if len(unsent) > len(old_unsent):
+                r.violated(key, common.site_of(fi, unsent[0][1]), 'Proxy.%s returns on a path on which no request was sent' % name, sure=True)
+            else:
+                r.ok(key, fi.site, 'every returning path has sent its request and returns a value')
 
 
 def kind_of(want):
